@@ -29,6 +29,21 @@ Ensures (statement clause -> name)
   obligations under the fairness assumption "the PHY is eventually cooperative for 4 consecutive cycles while no
   transmission is requested" — that last implication is an argument on paper, not a discharged obligation.
 
+FINDINGS on the unchanged tree (every witness below was found by the engine and replayed on Amaranth's simulator;
+proposed_fixes/C24_ulpi_register_write_atomicity_and_arbitration.diff makes the whole contract pass):
+  (a) wrong value to the addressed register: the register window uses the *live* address/write_data, and the control
+      translator derives them from a live priority chain.  A Function Control change while an OTG Control write is being
+      set up (or vice versa) sends `RegWrite 0x04` followed by an OTG value: replay ..._cons_shadow04_tracks_phy.json ends
+      with PHY Function Control = 0x01, an earlier OTG Control request that was never a Function Control request.  A change *back to the old value* while the write is in flight
+      makes the chain select nothing: address/data fall to 0 — replay ..._cons_stopping_refines.json completes a write to
+      register 0x00, ..._cons_shadow0a_tracks_phy.json writes 0x00 into OTG Control.
+  (b) `done` is routed by the live chain and the shadow takes the live write_value: the shadow register can be updated for
+      a register/value the PHY never received, after which "no change pending" holds with PHY registers != request.
+  (c) mutual blocking: a control change in the cycle a transmission is requested (or while the transmit command waits for
+      NXT) starts a register write although the transmitter owns the data/stp mux; the write is invisible to the PHY,
+      the control translator stays busy, which in turn withdraws the transmit command: neither ever completes
+      (replay ..._cons_window_busy_excludes_transmitter.json, clause write_never_hidden_behind_transmitter).
+
 The contract binds on the tree with and without the proposed fix (proposed_fixes/C24_*.diff): `requested_value_XX`
 (the sampled request introduced by the fix) is used if present, else the live request.
 """
@@ -199,6 +214,13 @@ def make(with_rst):
         c.ensure("shadow_tracks_phy_registers", z3.Implies(z3.Not(done), z3.And(sh04 == r04, sh0a == r0a)),
                  clause="the link's record of the PHY registers is the PHY model's register content (so 'no change pending' is "
                         "judged against what the PHY really holds)")
+        c.ensure("phy_accepts_only_genuine_commands",
+                 z3.Implies(z3.And(ph == IDLE, accept),
+                            z3.Or(z3.And(cmd2 == 1, treq, tf.is_("IDLE"), txv, W("IDLE")),
+                                  z3.And(cmd2 == 2, W("SEND_WRITE_ADDRESS"), z3.Not(treq), bits(data_o, 5, 0) == sel_addr))),
+                 clause="each write carrying the value for the register it addresses / transmissions and writes do not disturb each "
+                        "other: every command the PHY accepts is the transmitter's TXCMD or the RegWrite of the selected control "
+                        "register — never a stale register-window byte taken for a command, never a RegRead")
         c.ensure("write_never_hidden_behind_transmitter",
                  z3.Implies(z3.Not(W("IDLE")), z3.And(z3.Not(treq), data_o == wdata, O["stp"] == of(win.ulpi_stop))),
                  clause="register writes and packet transmissions never block each other: a write in progress owns the pins, it never "
@@ -246,4 +268,5 @@ def make(with_rst):
 
 def contracts(tier):
     yield ("UTMITranslator", "no_rst_pin", make(False))
-    yield ("UTMITranslator", "with_rst_pin", make(True))
+    if tier == "thorough":     # same logic behind a 60000-cycle PHY start-up delay (phy_ready); covers there are inv-satisfiability only
+        yield ("UTMITranslator", "with_rst_pin", make(True))
